@@ -34,7 +34,8 @@ async def run_history(root, rnd, scripted=False):
     r = Repository(Local(root / 'repo'), concurrent=2, quiet=True, cache_directory=None)
     with lib.quiet():
         await r.init(settings={'encryption': None, 'chunking': {'min_length': 8, 'max_length': 64}, 'hashing': {'name': 'sha2', 'bits': 256}})
-    names = ['a.txt', 'b.bin', 'sub/c.txt', 'sub/d']
+    # 'cafe\u0301.txt' is spelt with a DECOMPOSED accent (as macOS hands names out): filters are matched against the recorded path as it is
+    names = ['a.txt', 'b.bin', 'sub/c.txt', 'sub/d', 'cafe\u0301.txt']
     current = {}
     snaps = []       # (name, {abs path: bytes}) oldest first
     # scripted history: paths that are present / absent / present again (the version of the NEWEST snapshot containing
@@ -65,7 +66,7 @@ async def run_history(root, rnd, scripted=False):
         snaps.append((s.name, {str((src / n).resolve()): v for n, v in current.items()}))
     snap_filters = [None, '^' + snaps[-1][0] + '$', '^' + snaps[0][0] + '$', '|'.join(s[0][:12] for s in snaps[:2]), 'zzzz',
                     snaps[-1][0][:16].upper() if snaps[-1][0][:16].upper() != snaps[-1][0][:16] else 'Z']
-    file_filters = [None, r'\.txt$', 'sub/', 'b\\.bin|d$', 'nomatch', r'\.TXT$|SUB/D']
+    file_filters = [None, r'\.txt$', 'sub/', 'b\\.bin|d$', 'nomatch', r'\.TXT$|SUB/D', 'e\u0301\\.txt$', 'caf\u00e9']
     for sf in snap_filters:
         for ff in file_filters:
             out = root / 'out'
